@@ -138,3 +138,155 @@ def shape_of(spec: dict) -> dict:
             e["targets"] = [nm(t) for t in ref.gate_targets(ns)]
         out.append(e)
     return {"nodes": out, "bind": sorted(nm(b) for b in (spec.get("bind") or {})), "select": bool(spec.get("select")), "entry": bool(spec.get("entry"))}
+
+
+# ---------------------------------------------------------------------------
+# Gated acyclic programs (C03, C02, C12, C13, C16)
+# ---------------------------------------------------------------------------
+
+
+def gen_gated(rng: random.Random, *, name: str = "g", n_blocks: tuple[int, int] = (2, 5), deterministic: bool = True, prefix: str = "") -> dict:
+    """Blocks composed in sequence: plain functions, if/else diamonds, multi-way
+    single-/multi-target routes (fallback, None, END), two gates sharing a target,
+    and a gate whose target is another gate.
+
+    deterministic=True keeps the program in the sub-class where the statement fixes
+    the executed set exactly: a gate is default-open only when it reads graph inputs
+    only and is not itself a gate target; otherwise it is closed-by-default.
+    Returns the spec with 'selectors' (int-valued graph inputs that drive gates) and
+    'inputs'."""
+    P = prefix
+    ins = [f"{P}i{j}" for j in range(rng.randint(1, 3))]
+    pool = list(ins)
+    sels: list[str] = []
+    nodes: list[dict] = []
+    cnt = [0]
+
+    def nid():
+        cnt[0] += 1
+        return cnt[0]
+
+    def new_sel():
+        s = f"{P}s{len(sels)}"
+        sels.append(s)
+        return s
+
+    def pick(k=1):
+        k = min(k, len(pool))
+        return rng.sample(pool, k)
+
+    def gate_key(force_input=False):
+        """(key name, reads_inputs_only)"""
+        if force_input or rng.random() < 0.65 or not [p for p in pool if p not in ins]:
+            return new_sel(), True
+        return rng.choice([p for p in pool if p not in ins]), False
+
+    def openness(inputs_only, is_target=False):
+        if deterministic and (not inputs_only or is_target):
+            return False
+        return rng.random() < 0.6
+
+    def fn(nm, params, outs):
+        return {"k": "fn", "name": nm, "params": [{"n": p} for p in params], "outs": outs}
+
+    for _ in range(rng.randint(*n_blocks)):
+        kind = rng.choice(["fn", "ifelse", "ifelse", "route", "route", "multi", "shared", "chain"])
+        K = nid()
+        if kind == "fn":
+            o = f"{P}v{K}"
+            nodes.append(fn(f"{P}f{K}", pick(rng.randint(1, 2)), [o]))
+            pool.append(o)
+        elif kind == "ifelse":
+            key, io = gate_key()
+            same = rng.random() < 0.6
+            to_end = rng.random() < 0.25
+            a, b = f"{P}g{K}t", f"{P}g{K}tt"  # one name is a prefix of the other on purpose
+            ra = f"{P}r{K}" if same else f"{P}r{K}a"
+            rb = f"{P}r{K}" if same else f"{P}r{K}b"
+            table = [rng.random() < 0.5 for _ in range(rng.randint(2, 4))]
+            if all(table) or not any(table):
+                table[0] = not table[0]
+            g = {"k": "ifelse", "name": f"{P}g{K}", "params": [{"n": key}], "t": a, "f": ("END" if to_end else b), "table": table, "open": openness(io)}
+            nodes.append(g)
+            nodes.append(fn(a, pick(1), [ra]))
+            if not to_end:
+                nodes.append(fn(b, pick(1), [rb]))
+            if same or to_end:
+                j = f"{P}w{K}"
+                nodes.append(fn(f"{P}j{K}", [ra], [j]))
+                pool.extend([ra, j])
+            else:
+                pool.extend([ra, rb])
+        elif kind == "route":
+            key, io = gate_key()
+            k = rng.randint(2, 3)
+            tnames = [f"{P}g{K}" + "t" * (i + 1) for i in range(k)]
+            same = rng.random() < 0.4
+            outs = [f"{P}r{K}" if same else f"{P}r{K}{'abc'[i]}" for i in range(k)]
+            options = list(tnames) + (["END"] if rng.random() < 0.5 else []) + ([None] if rng.random() < 0.5 else [])
+            table = [rng.choice(options) for _ in range(rng.randint(2, 5))]
+            fb = None
+            if None in table and rng.random() < 0.5:
+                fb = rng.choice(tnames + ["END"])
+            g = {"k": "route", "name": f"{P}g{K}", "params": [{"n": key}], "targets": tnames + (["END"] if "END" in options or fb == "END" else []), "table": table, "open": openness(io)}
+            if fb:
+                g["fallback"] = fb
+            nodes.append(g)
+            for t, o in zip(tnames, outs):
+                nodes.append(fn(t, pick(1), [o]))
+            if same:
+                j = f"{P}w{K}"
+                nodes.append(fn(f"{P}j{K}", [outs[0]], [j]))
+                pool.extend([outs[0], j])
+            else:
+                pool.extend(outs)
+        elif kind == "multi":
+            key, io = gate_key()
+            k = rng.randint(2, 3)
+            tnames = [f"{P}g{K}" + "t" * (i + 1) for i in range(k)]
+            outs = [f"{P}r{K}{'abc'[i]}" for i in range(k)]
+            table = []
+            for _ in range(rng.randint(2, 5)):
+                r = rng.random()
+                if r < 0.15:
+                    table.append(None)
+                else:
+                    table.append(sorted(rng.sample(tnames, rng.randint(0, k))))
+            g = {"k": "route", "name": f"{P}g{K}", "params": [{"n": key}], "targets": tnames, "multi": True, "table": table, "open": openness(io)}
+            nodes.append(g)
+            for t, o in zip(tnames, outs):
+                nodes.append(fn(t, pick(1), [o]))
+            pool.extend(outs)
+        elif kind == "shared":
+            k1, io1 = gate_key()
+            k2, io2 = gate_key()
+            T, A, B = f"{P}h{K}", f"{P}h{K}a", f"{P}h{K}b"
+            for gi, (key, io, other) in enumerate([(k1, io1, A), (k2, io2, B)]):
+                opts = [T, other, "END"]
+                table = [rng.choice(opts) for _ in range(rng.randint(2, 4))]
+                nodes.append({"k": "route", "name": f"{P}g{K}{'xy'[gi]}", "params": [{"n": key}], "targets": [T, other, "END"], "table": table, "open": openness(io)})
+            nodes.append(fn(T, pick(1), [f"{P}r{K}"]))
+            nodes.append(fn(A, pick(1), [f"{P}r{K}a"]))
+            nodes.append(fn(B, pick(1), [f"{P}r{K}b"]))
+            pool.extend([f"{P}r{K}", f"{P}r{K}a", f"{P}r{K}b"])
+        else:  # chain: outer gate routes to an inner gate or to X; inner gate routes to Y or Z
+            k1, io1 = gate_key()
+            k2, io2 = gate_key()
+            G2, X, Y, Z = f"{P}g{K}in", f"{P}c{K}x", f"{P}c{K}y", f"{P}c{K}z"
+            t1 = [rng.choice([G2, X, "END"]) for _ in range(rng.randint(2, 4))]
+            t2 = [rng.choice([Y, Z]) for _ in range(rng.randint(2, 3))]
+            nodes.append({"k": "route", "name": f"{P}g{K}", "params": [{"n": k1}], "targets": [G2, X, "END"], "table": t1, "open": openness(io1)})
+            nodes.append({"k": "route", "name": G2, "params": [{"n": k2}], "targets": [Y, Z], "table": t2, "open": openness(io2, is_target=True)})
+            for nm, o in [(X, f"{P}r{K}x"), (Y, f"{P}r{K}y"), (Z, f"{P}r{K}z")]:
+                nodes.append(fn(nm, pick(1), [o]))
+            pool.extend([f"{P}r{K}x", f"{P}r{K}y", f"{P}r{K}z"])
+    if not any(ns["k"] != "fn" for ns in nodes):
+        return gen_gated(rng, name=name, n_blocks=n_blocks, deterministic=deterministic, prefix=prefix)
+    return {"name": name, "nodes": nodes, "bind": {}, "inputs": ins, "selectors": sels, "deterministic": deterministic}
+
+
+def gated_inputs(rng: random.Random, spec: dict) -> dict:
+    d = {i: f"run:{i}" for i in spec["inputs"]}
+    for s in spec["selectors"]:
+        d[s] = rng.randint(0, 11)
+    return d
